@@ -48,6 +48,8 @@ pub struct SessCfg {
     pub budget: Option<u64>,
     /// mount a copy at every boundary to check the dirty report (C12) / remount view (C04)
     pub shadow_mount: bool,
+    /// record every device write with payload + the durable file set after every call (C14)
+    pub journal: bool,
 }
 
 impl SessCfg {
@@ -63,6 +65,7 @@ impl SessCfg {
             props,
             budget: None,
             shadow_mount: false,
+            journal: false,
         }
     }
     pub fn on(&self, p: &str) -> bool {
@@ -111,6 +114,7 @@ pub struct Counters {
 }
 
 pub struct Outcome {
+    pub journal: Vec<JOp>,
     pub history: Vec<Op>,
     pub violation: Option<Violation>,
     pub ops_run: usize,
@@ -218,6 +222,21 @@ pub struct Sess<'c> {
     pub count_known: bool,
     pub history: Vec<Op>,
     pub exhausted: bool,
+    pub journal: Vec<JOp>,
+}
+
+/// One monitored call as seen by the crash-consistency checker (C14).
+#[derive(Clone, Debug, Default)]
+pub struct JOp {
+    pub op: String,
+    /// (is_flush, offset, payload) in issue order; writes carry their payload
+    pub events: Vec<(bool, u64, Vec<u8>)>,
+    /// files that are durable after this call: (path, content)
+    pub durable: Vec<(String, Vec<u8>)>,
+    /// paths (files, or directories = whole subtrees) this call modifies/renames/removes
+    pub excluded: Vec<String>,
+    /// the call is a successful flush / drop of a file handle
+    pub flush_point: bool,
 }
 
 #[derive(Clone, Debug, Default)]
@@ -528,7 +547,11 @@ pub fn run_session(cfg: &SessCfg, img0: &Image, vol_bytes: u64, cfg_class: u64, 
         count_known: false,
         history: Vec::new(),
         exhausted: false,
+        journal: Vec::new(),
     };
+    if cfg.journal {
+        s.dev.set_logging(true, true);
+    }
     // learn what is already on the volume (foreign / pre-populated images)
     checks::seed_model_from_image(&mut s);
     while !s.exhausted && s.violation.is_none() {
@@ -542,6 +565,7 @@ pub fn run_session(cfg: &SessCfg, img0: &Image, vol_bytes: u64, cfg_class: u64, 
     Outcome {
         ops_run: s.pc,
         history: std::mem::take(&mut s.history),
+        journal: std::mem::take(&mut s.journal),
         final_img: s.dev.snapshot(),
         final_model_hash: s.model.state_hash(),
         violation: s.violation,
@@ -674,6 +698,9 @@ fn run_epoch(s: &mut Sess, src: &mut dyn OpSource, closing: bool) {
             s.violate("C04", "unmount-error", &op, ek.name(), format!("unmount returned {:?} without any injected fault", ek));
         }
         Ok(Ok(())) => {
+            if s.cfg.journal {
+                journal_push(s, op.show(), &log, Vec::new(), false);
+            }
             checks::after_unmount(s, &pre, &log, how, &op);
         }
     }
@@ -760,11 +787,59 @@ fn step<'f>(s: &mut Sess, fs: &'f Fs, hs: &mut Vec<Option<H<'f>>>, op: &Op) {
         s.violate(prop, "io-error-without-fault", op, &format!("{:?}", out.io_code), format!("{} returned an I/O error (code {:?}) although the device reported none", op.show(), out.io_code));
         return;
     }
+    let excl_pre: Vec<String> = if s.cfg.journal { journal_excluded(s, op, exp.as_ref()) } else { Vec::new() };
     checks::judge(s, fs, hs, op, exp.as_ref(), &out, &pre, &log);
+    if s.cfg.journal {
+        let flush_point = ek == EK::Ok && matches!(op, Op::Flush { .. } | Op::Close { .. });
+        journal_push(s, op.show(), &log, excl_pre, flush_point);
+    }
     if s.violation.is_some() {
         return;
     }
     checks::post_op(s, fs, hs, op, &log, Some(&pre), false);
+}
+
+/// paths whose durability is not asserted while `op` runs (computed on the pre-call model)
+fn journal_excluded(s: &Sess, op: &Op, exp: Option<&Expect>) -> Vec<String> {
+    let mut v = Vec::new();
+    match op {
+        Op::Write { h, .. } | Op::Truncate { h } | Op::Flush { h } | Op::Close { h } | Op::SetTimes { h, .. } | Op::Read { h, .. } => {
+            if let Some(Some(MH::File { node, .. })) = s.model.handles.get(*h) {
+                v.push(s.model.path_of(*node));
+            }
+        }
+        Op::Remove { .. } | Op::Rename { .. } => {
+            if let Some(x) = exp {
+                if let Some(n) = x.existing {
+                    v.push(s.model.path_of(n));
+                }
+            }
+        }
+        _ => {}
+    }
+    v
+}
+
+fn journal_push(s: &mut Sess, op: String, log: &[Ev], excluded: Vec<String>, flush_point: bool) {
+    let mut events = Vec::new();
+    for e in log {
+        match e.kind {
+            EvKind::Write if e.ok && e.len > 0 => events.push((false, e.off, e.payload.clone().unwrap_or_default())),
+            EvKind::Flush if e.ok => events.push((true, 0, Vec::new())),
+            _ => {}
+        }
+    }
+    let mut durable = Vec::new();
+    for (i, n) in s.model.nodes.iter().enumerate() {
+        if i == 0 || !n.alive || n.is_dir {
+            continue;
+        }
+        if s.model.has_dirty_handle(i) {
+            continue;
+        }
+        durable.push((s.model.path_of(i), n.content.clone()));
+    }
+    s.journal.push(JOp { op, events, durable, excluded, flush_point });
 }
 
 pub fn primary_prop(cfg: &SessCfg, op: &Op) -> &'static str {
@@ -796,7 +871,7 @@ fn err_out<T>(e: &fatfs::Error<crate::dev::DevError>) -> (Option<EK>, Option<u32
     (Some(classify_err(e)), code, None)
 }
 
-fn exec<'f>(fs: &'f Fs, hs: &mut Vec<Option<H<'f>>>, op: &Op, op_id: u64, model: &Model) -> Out {
+pub fn exec<'f>(fs: &'f Fs, hs: &mut Vec<Option<H<'f>>>, op: &Op, op_id: u64, model: &Model) -> Out {
     let mut out = Out::default();
     macro_rules! fail {
         ($e:expr) => {{
